@@ -3215,7 +3215,9 @@ class SSHConnection(SSHPacketHandler, asyncio.Protocol):
 
             self.logger.info('  Forwarding TCP connection to %s',
                              (dest_host, dest_port))
-        except OSError as exc:
+        except (OSError, ValueError) as exc:
+            # Host names the resolver refuses (empty labels, labels
+            # which are too long, embedded NULs) raise ValueError
             raise ChannelOpenError(OPEN_CONNECT_FAILED, str(exc)) from None
 
         return SSHForwarder(cast(SSHForwarder, peer))
